@@ -32,7 +32,8 @@ Record config := {
   wrap_module : list mitem;
   erase_defaults : erase_mode;
   erase_kwdefaults : erase_mode;
-  erase_const : erase_value;
+  erase_const : erase_value;                    (* placeholder for positional defaults *)
+  erase_kwconst : erase_value;                  (* placeholder for keyword-only defaults *)
   erase_before_transform : bool;
   deco_top : deco_action;                       (* fn_scope.level <= deco_level *)
   deco_nested : deco_action;
